@@ -25,7 +25,7 @@ def check(ctx, run):
     run.not_decided.append("quality of the random source; only that every drawn index is in range and swaps permute")
     run.rule("R1", "accounting identity: TestRegistry::runAllTests folded over every list of 0..4 tests x group pattern x selection outcome: countTest once per test, shouldRun asked once with the registry's filters, runOneTest exactly once iff selected (-> countRun|countIgnored x1 in every override) else countFilteredOut once; getNext follows next_ and nothing in the framework rewires the list", floor=9)
     run.rule("R2", "selection: shouldRun = match(group) && match(name); match = true on empty list else OR over the list (folded for all lists up to 3 filters x all outcomes); TestFilter::match folded over all 16 valuations = invert xor (strict ? equals : contains)", floor=32, exhaustive=True)
-    run.rule("R3", "permutation: array elements written only by the fill loop and swap; swap exchanges; shuffle/reverse index bounds; relink chains all entries in array order (folded for 0..4 entries); the registry stores the new first test", floor=16)
+    run.rule("R3", "permutation: shuffle and reverse folded end to end on arrays of 0..6 distinct entries (whichever helper exchanges entries inlined; cells outside the array do not exist): the list is relinked once from exactly the seeded Fisher-Yates / reversed arrangement; relink chains all entries in array order (folded for 0..4 entries); the registry stores the new first test; array elements are written only inside the array class", floor=16)
     run.rule("R4", "balanced group notifications: the folded registry run emits exactly the reference notification sequence (one group start before / one group end after every maximal run of one group name, test start/run/end bracketed, in list order) for every list of 0..4 tests; endOfGroup folded over its 8 cases", floor=6)
 
     reg = prog.fn("TestRegistry::runAllTests")
@@ -142,71 +142,65 @@ def check(ctx, run):
     # ---------------- R3 ----------------------------------------------------
     ARR = "UtestShellPointerArray"
     ws = sorted({f.qn for f, n in field_writers(prog, ARR + "::arrayOfTests_") if "k" in n and ("[" in render(f, f.node(n.get("lhs"))) if n.get("lhs") is not None else False)})
-    run.ob("R3", "array elements are written only by the constructor's fill loop and swap", "include/CppUTest/Utest.h:" + ARR, set(ws) <= {ARR + "::" + ARR, ARR + "::swap"}, witness=ws)
-    sw = prog.fn(ARR + "::swap")
-    run.analysed(sw)
-    a, b = sw.params[0]["name"], sw.params[1]["name"]
-    for ia, ib in ((2, 5), (5, 2), (3, 3)):
-        env = {a: ia, b: ib, "arrayOfTests_[%d]" % ia: 100 + ia, "arrayOfTests_[%d]" % ib: 100 + ib}
-        ev = Evaluator(prog, sw, env=env)
-        try:
-            ev.run_blocks(sw.entry)
-            got = (ev.env.get("arrayOfTests_[%d]" % ia), ev.env.get("arrayOfTests_[%d]" % ib))
-            others = [k for k, v in ev.stores if k.startswith("arrayOfTests_[") and k not in ("arrayOfTests_[%d]" % ia, "arrayOfTests_[%d]" % ib)]
-        except Unknown as u:
-            got, others = "unknown: %s" % u, []
-        run.ob("R3", "swap(%d, %d) exchanges exactly those two entries" % (ia, ib), sw.site, got == (100 + ib, 100 + ia) and not others, witness={"after": got})
+    inside = {g.qn for g in prog.functions.values() if g.cls == ARR or (not g.cls and g.d.get("static") and g.file == "src/CppUTest/Utest.cpp")}
+    run.ob("R3", "array elements are written only by the array class itself (constructor fill loop, exchange of two entries)", "include/CppUTest/Utest.h:" + ARR, set(ws) <= inside, witness=ws)
     sh = prog.fn(ARR + "::shuffle")
-    run.analysed(sh)
-    # fold shuffle for several array sizes and random streams: the swaps must be (i, r % (i+1)) for i = n-1 .. 1
-    for n, stream in itertools.product((0, 1, 2, 5), ([0] * 8, [7, 123456789, 2147483647, 3, 1, 0, 99, 4], [2147483647] * 8)):
-        ev = Evaluator(prog, sh, env={"count_": n, sh.params[0]["name"]: 42})
-        it = iter(stream)
-        swaps, relinks = [], []
-        ev.calls["PlatformSpecificRand"] = lambda it=it: next(it)
-        ev.calls["PlatformSpecificSrand"] = lambda *a: 0
-        ev.calls[ARR + "::swap"] = lambda a_, b_, swaps=swaps: (swaps.append((a_, b_)), 0)[1]
-        ev.calls[ARR + "::relinkTestsInOrder"] = lambda swaps=swaps, relinks=relinks: (relinks.append(len(swaps)), 0)[1]
-        try:
-            ev.run_blocks(sh.entry, max_steps=400)
-            why = ""
-        except Unknown as u:
-            why = "cannot fold: %s" % u
-        want = [(i, stream[k] % (i + 1)) for k, i in enumerate(range(n - 1, 0, -1))]
-        ok = not why and swaps == want and all(0 <= a_ < max(n, 1) and 0 <= b_ < max(n, 1) for a_, b_ in swaps) and (relinks == [len(want)] if n else relinks in ([], [0]))
-        run.ob("R3", "shuffle of %d entries with random stream %s" % (n, stream[:3]), sh.site, ok, witness={"swaps": swaps, "relinked_after_swaps": relinks},
-               what=why or ("" if ok else "swaps %s (expected %s), relink after %s swaps: a drawn index can fall outside [0, count_), the walk does not cover the array, or the list is not rebuilt" % (swaps, want, relinks)))
-    for fn_ in (sh, prog.fn(ARR + "::reverse")):
-        run.analysed(fn_)
-        loops = loop_blocks(fn_)
-        rl = [c for c in fn_.calls() if prog.callee_name(fn_, c) == ARR + "::relinkTestsInOrder"]
-        ok = len(rl) == 1 and fn_.where_enclosing(rl[0])[0] not in loops
-        if ok:
-            # reached on every path that swapped
-            for p in enumerate_paths(fn_):
-                names = [(prog.callee_name(fn_, c) or "").split("::")[-1] for c in path_calls(prog, fn_, p)]
-                if "swap" in names and names.count("relinkTestsInOrder") != 1 and p.end == "return" and p.val().get("count_") is not False:
-                    ok = False
-        run.ob("R3", "%s relinks the list once after permuting the array" % fn_.name, fn_.site, ok,
-               what="" if ok else "the linked list the registry walks is not rebuilt from the permuted array: tests are lost or duplicated")
     rv = prog.fn(ARR + "::reverse")
-    bad = None
-    for n in range(0, 7):
-        swaps, relinks = [], []
-        ev = Evaluator(prog, rv, env={"count_": n}, calls={ARR + "::swap": lambda *a_: (swaps.append(a_[-2:]), 0)[1], ARR + "::relinkTestsInOrder": lambda *a_: (relinks.append(len(swaps)), 0)[1]})
+    run.analysed(sh)
+    run.analysed(rv)
+    AINL = {g.qn for g in prog.functions.values() if g.cls == ARR}
+
+    def fold_permute(f, n, stream):
+        """shuffle / reverse folded end to end on an array of n distinct entries (whatever helper exchanges entries is
+        inlined); the relinking is a stub that records the array as it is at that moment. Cells outside [0, n) do not exist."""
+        env = {"count_": n, "arrayOfTests_": ("ptr", "ARR", 0)}
+        for k in range(n):
+            env["ARR[%d]" % k] = 100 + k
+        if f.params:
+            env[f.params[0]["name"]] = 42
+        it = iter(stream)
+        snaps, seeds = [], []
+
+        def relink(ev_, *a_):
+            snaps.append([ev_.env.get("ARR[%d]" % k) for k in range(n)])
+            return 0
+        relink.wants_ev = True
+        ev = Evaluator(prog, f, env=env, calls={"PlatformSpecificRand": lambda: next(it), "PlatformSpecificSrand": lambda *a_: (seeds.append(a_[-1]), 0)[1], ARR + "::relinkTestsInOrder": relink})
+        ev.inline = AINL - set(ev.calls)
         try:
-            ev.run_blocks(rv.entry, max_steps=600)
+            ev.run_blocks(f.entry, max_steps=3000)
         except Unknown as u:
-            run.broke("C02.R3: reverse cannot be folded: %s" % u)
-            break
-        arr = list(range(n))
-        oob = [x for x in swaps if not (0 <= x[0] < max(n, 1) and 0 <= x[1] < max(n, 1))]
-        for i_, j_ in swaps:
-            if not oob:
-                arr[i_], arr[j_] = arr[j_], arr[i_]
-        if (oob or arr != list(range(n))[::-1] or (n > 0 and relinks != [len(swaps)])) and bad is None:
-            bad = "%d entries: swaps %s give %s (relinked after %s swaps)" % (n, swaps, arr, relinks)
-    run.ob("R3", "reverse folded for 0..6 entries: in-range swaps that produce the reversed array, list relinked once afterwards", rv.site, bad is None, witness=bad or "7 sizes", what=bad or "")
+            oob = [k_ for k_ in getattr(ev, "absent_reads", []) if k_.startswith("ARR[")]
+            if oob:
+                return None, "an entry outside the array is touched (%s)" % oob[0], seeds
+            raise
+        outside = sorted(k_ for k_, v_ in ev.stores if k_.startswith("ARR[") and not (0 <= int(k_[4:-1]) < n))
+        if outside:
+            return None, "an entry outside the array is written (%s)" % outside[0], seeds
+        return snaps, "", seeds
+    try:
+        for n, stream in itertools.product((0, 1, 2, 5), ([0] * 8, [7, 123456789, 2147483647, 3, 1, 0, 99, 4], [2147483647] * 8)):
+            snaps, why, seeds = fold_permute(sh, n, stream)
+            arr = [100 + k for k in range(n)]
+            for k, i in enumerate(range(n - 1, 0, -1)):
+                j = stream[k] % (i + 1)
+                arr[i], arr[j] = arr[j], arr[i]
+            if not why and snaps != ([arr] if n else snaps) or (not why and n == 0 and snaps not in ([], [[]])):
+                why = "the list is rebuilt from %s; the seeded Fisher-Yates walk over all %d entries gives %s, relinked once at the end" % (snaps, n, arr)
+            if not why and n and seeds != [42]:
+                why = "the random source is seeded with %s, the caller's seed is 42" % (seeds,)
+            run.ob("R3", "shuffle of %d entries with random stream %s" % (n, stream[:3]), sh.site, not why, witness=why or {"order": snaps}, what=why)
+        bad = None
+        for n in range(0, 7):
+            snaps, why, _ = fold_permute(rv, n, [])
+            want = [100 + k for k in range(n)][::-1]
+            if not why and (snaps != [want] if n else snaps not in ([], [[]])):
+                why = "the list is rebuilt from %s, the reversed array is %s (relinked once at the end)" % (snaps, want)
+            if why and bad is None:
+                bad = "%d entries: %s" % (n, why)
+        run.ob("R3", "reverse folded for 0..6 entries: the list is relinked once from the reversed array, nothing outside the array is touched", rv.site, bad is None, witness=bad or "7 sizes", what=bad or "")
+    except Unknown as u:
+        run.broke("C02.R3: shuffle / reverse cannot be folded: %s" % u)
     rl = prog.fn(ARR + "::relinkTestsInOrder")
     run.analysed(rl)
     for n in range(0, 5):
